@@ -497,6 +497,9 @@ class Program:
                 return '|'.join(m['name'] for m in cands)
         return 'f%s' % (fidx if fidx is not None else off)
 
+    def const_index(self, f, o):
+        return f.const_of(o)
+
     def cstring(self, gname, quote=False):
         g = self.globals.get(gname)
         if not g or 'bytes' not in g or not g['ty'].endswith('x i8]'):
